@@ -169,3 +169,82 @@ def option_box(D, N, M=3, symmetric_only=False, unit_stride=False):
         if ok:
             keep.append((padding, stride, rd, ld, flags))
     return keep
+
+
+def _pick(seq, *key):
+    import zlib
+
+    return seq[zlib.crc32(repr(key).encode()) % len(seq)]
+
+
+def sampled_options(D, n, seed, symmetric_only=False, unit_stride=False, kmax=None, max_cost=40000):
+    """n pseudo-random members of the FULL option space (deterministic in `seed`): extents incl. 1 and non-square,
+    filter sides 1-5 incl. even and non-square, every padding kind (strings, default, integers, symmetric and
+    asymmetric explicit pairs), strides, both dilations incl. anisotropic ones, every torus-flag pattern (tuple or
+    bool), tensor orders, batch and channel counts.  The hand-written boxes cover the combinations someone thought
+    of; this sampler covers the ones nobody did.  Wrap padding together with image dilation is left out (ambiguous
+    statement), outputs must be non-empty, and the size of the polynomial work is bounded by max_cost."""
+    out = []
+    i = 0
+    kmax = kmax if kmax is not None else (3 if D == 2 else 2)
+    while len(out) < n and i < 50 * n + 200:
+        i += 1
+        k = lambda *f: (seed, i) + f
+        N = tuple(_pick((1, 2, 3, 4, 5, 6) if D == 2 else (1, 2, 3, 4), *k("N", a)) for a in range(D))
+        if _pick((0, 1, 2), *k("Msq")):
+            M = (_pick((1, 2, 3, 3, 3, 4, 5), *k("M")),) * D
+        else:
+            M = tuple(_pick((1, 2, 3, 4, 5) if D == 2 else (1, 2, 3), *k("M", a)) for a in range(D))
+        even = any(m % 2 == 0 for m in M)
+        fl = tuple(_pick((True, False), *k("fl", a)) for a in range(D))
+        flags = _pick((fl, fl, fl, True, False), *k("flk"))
+        flt = (flags,) * D if isinstance(flags, bool) else flags
+        pk = _pick(("TORUS", "SAME", "VALID", None, "int", "sym", "asym") if not symmetric_only else ("TORUS", "SAME", "VALID", None, "int", "sym"), *k("pad"))
+        if pk == "int":
+            padding = _pick((0, 1, 2, 3), *k("padi"))
+        elif pk == "sym":
+            padding = [[_pick((0, 1, 2, 3), *k("pads", a))] * 2 for a in range(D)]
+        elif pk == "asym":
+            padding = [[_pick((0, 1, 2, 3), *k("padl", a)), _pick((0, 1, 2, 3), *k("padh", a))] for a in range(D)]
+        else:
+            padding = pk
+        if even and padding in ("TORUS", "SAME", None) and _pick((0, 1, 2, 3), *k("keep-even")):
+            continue  # rejected by design; keep only a quarter of those
+        stride = 1 if unit_stride else _pick((1, 1, 1, 2, 3, "a"), *k("st"))
+        if stride == "a":
+            stride = tuple(_pick((1, 2, 3), *k("sta", a)) for a in range(D))
+        rd = _pick((1, 1, 2, 3, "a"), *k("rd"))
+        if rd == "a":
+            rd = tuple(_pick((1, 2, 3), *k("rda", a)) for a in range(D))
+        ld = _pick((None, None, None, 2, 3, "a"), *k("ld"))
+        if ld == "a":
+            ld = [_pick((1, 2, 3), *k("lda", a)) for a in range(D)]
+        elif ld is not None:
+            ld = [ld] * D
+        wraps = (padding == "TORUS" and any(flt)) or (padding is None and any(flt))
+        if ld is not None and wraps:
+            continue
+        if symmetric_only and padding is None and ld is not None and any(flt):
+            continue
+        ki = _pick(tuple(range(kmax + 1)), *k("ki"))
+        kf = _pick(tuple(range(kmax + 1 - ki)), *k("kf"))
+        B, C, O = _pick((1, 2), *k("B")), _pick((1, 2, 3), *k("C")), _pick((1, 2, 3), *k("O"))
+        _, st, pads, ldn, rdn = norm_opts(D, flt, stride, padding, ld, rd, M)
+        ok, outsz = True, 1
+        for a in range(D):
+            dil_in = (N[a] - 1) * ldn[a] + 1
+            k_eff = (M[a] - 1) * rdn[a] + 1
+            free = dil_in + pads[a][1] + pads[a][2] - k_eff
+            if free < 0:
+                ok = False
+                break
+            outsz *= free // st[a] + 1
+        if not ok:
+            continue
+        taps = 1
+        for m in M:
+            taps *= m
+        if outsz * taps * B * C * O * D ** (ki + kf) > max_cost:
+            continue
+        out.append(dict(N=N, M=M, flags=flags, padding=padding, stride=stride, rd=rd, ld=ld, ki=ki, kf=kf, B=B, C=C, O=O, even_must_reject=even and padding in ("TORUS", "SAME", None)))
+    return out
